@@ -83,6 +83,16 @@ func (r *recorder) on(label string) {
 // recoverSnapshot restores snap into a fresh dir, reopens, puts a unique
 // sentinel and drains up to it.
 func recoverSnapshot(snap dqh.Snapshot, max, syncEvery int64) (run [][]byte, err error) {
+	run, err = recoverSnapshotBounded(snap, max, syncEvery, 10*time.Second)
+	if err != nil && strings.Contains(err.Error(), "hung") {
+		// a wall-clock bound is no verdict on a busy machine: the same snapshot once more, with a bound no starved
+		// scheduler explains; only a repeat is reported
+		return recoverSnapshotBounded(snap, max, syncEvery, 120*time.Second)
+	}
+	return run, err
+}
+
+func recoverSnapshotBounded(snap dqh.Snapshot, max, syncEvery int64, bound time.Duration) (run [][]byte, err error) {
 	dir := dqh.ScratchDir("c08r")
 	defer os.RemoveAll(dir)
 	snap.Restore(dir)
@@ -95,11 +105,11 @@ func recoverSnapshot(snap dqh.Snapshot, max, syncEvery int64) (run [][]byte, err
 		if e != nil {
 			return nil, fmt.Errorf("put after reopen failed: %v", e)
 		}
-	case <-time.After(10 * time.Second):
+	case <-time.After(bound):
 		return nil, fmt.Errorf("put after reopen hung")
 	}
 	for {
-		m, ok := q.Get(10 * time.Second)
+		m, ok := q.Get(bound)
 		if !ok {
 			return run, fmt.Errorf("reopened queue hung: sentinel put after reopening never came out (got %d messages)", len(run))
 		}
@@ -118,7 +128,7 @@ func recoverSnapshot(snap dqh.Snapshot, max, syncEvery int64) (run [][]byte, err
 	sizes := []int{m/2 + 1, 1, m/2 + 1, 0, m, 2, m/2 + 1, m/2 + 1, 3}
 	var fifo [][]byte
 	getOne := func() error {
-		got, ok := q.Get(10 * time.Second)
+		got, ok := q.Get(bound)
 		if !ok {
 			return fmt.Errorf("post-recovery workload: queue hung with %d undelivered messages", len(fifo))
 		}
@@ -149,7 +159,7 @@ func recoverSnapshot(snap dqh.Snapshot, max, syncEvery int64) (run [][]byte, err
 	go func() { q.Close(); close(done) }()
 	select {
 	case <-done:
-	case <-time.After(10 * time.Second):
+	case <-time.After(bound):
 		return run, fmt.Errorf("Close after recovery hung")
 	}
 	return run, nil
@@ -254,9 +264,9 @@ func runCrash(t *rapid.T) {
 		go func() { f(); close(done) }()
 		select {
 		case <-done:
-		case <-time.After(10 * time.Second):
+		case <-time.After(90 * time.Second):
 			wedged = true
-			t.Fatalf("%s did not return within 10s; history %v", what, cs.Ops)
+			t.Fatalf("%s did not return within 90s; history %v", what, cs.Ops)
 		}
 	}
 	// the I/O loop signals "idle" right before it blocks: draining the channel
@@ -308,10 +318,10 @@ func runCrash(t *rapid.T) {
 			from := len(r.points)
 			cs.Ops = append(cs.Ops, "get")
 			drainIdle()
-			m, ok := q.Get(10 * time.Second)
+			m, ok := q.Get(90 * time.Second)
 			if !ok {
 				wedged = true
-				t.Fatalf("queue with %d undelivered messages delivered nothing within 10s; history %v", undelivered(), cs.Ops)
+				t.Fatalf("queue with %d undelivered messages delivered nothing within 90s; history %v", undelivered(), cs.Ops)
 			}
 			waitIdle("get")
 			E := epochs[r.epoch].E
